@@ -12,6 +12,8 @@ The process-wide zero nodes (`&ZeroHashes[d]`) are ordinary leaf cells of the in
 (address 0 of `exHeap`), so every statement below covers them.
 -/
 import ZtypV.Proofs.Heap
+import ZtypV.Proofs.HeapReloc
+import ZtypV.Proofs.HeapCost
 namespace ZtypV.Props.C05
 open ZtypV ZtypV.H
 
@@ -32,6 +34,31 @@ example : ∃ a hp' tr, run exHash exClient exHeap3 = (a, hp', tr) ∧ exHeap3.s
     ∧ ∀ x, x < exHeap3.size → absNode hp' x = absNode exHeap3 x :=
   ⟨_, _, _, rfl, by decide,
     (C05_frame exHash (wfB_sound (by decide)) noPoke_exClient rfl).2.2.2⟩
+
+/-- The only thing that can happen to an existing cell: it is bit-for-bit unchanged, or it was a pair
+    with unset memo and now carries a memo — which, if set, is the root of its (unchanged) children.
+    Leaves — in particular the shared zero leaves — and pairs that were already hashed are
+    bit-for-bit unchanged. -/
+theorem C05_only_memo_fill (h : HashFn) {p : Prog α} {hp : Heap} (hw : WF hp) (hm : MemoValid h hp)
+    (hnp : NoPoke p) {y : Nat} (hy : y < hp.size) :
+    (run h p hp).2.1[y]? = hp[y]? ∨
+      ∃ l r v, hp[y]? = some (Cell.pair z0 l r) ∧ (run h p hp).2.1[y]? = some (Cell.pair v l r)
+        ∧ (v = z0 ∨ v = h ((absNode hp l).root h) ((absNode hp r).root h)) := by
+  rcases (run_fillOld h hnp hp).2 y hy with e | ⟨l, r, v, e0, e1⟩
+  · exact .inl e
+  · refine .inr ⟨l, r, v, e0, e1, ?_⟩
+    by_cases hv : v = z0
+    · exact .inl hv
+    · have hf := run_frame h hnp hp hw
+      have hlr := hw y z0 l r e0
+      have := run_memoValid h hnp hp hw hm y v l r e1 hv
+      rw [pureRoot_ext h hw hf.2 (by omega), pureRoot_ext h hw hf.2 (by omega)] at this
+      exact .inr this
+
+/-- both cases occur: on the unhashed `exHeap` the client's hash request fills the memo of the old
+    pair 3; the zero leaf 0 stays as it is -/
+example : (run exHash exClient exHeap).2.1[0]? = exHeap[0]?
+    ∧ (run exHash exClient exHeap).2.1[3]? ≠ exHeap[3]? := by decide
 
 /-- The Merkle root of every existing node, as observed by a later `MerkleRoot` call, is unchanged:
     it is the root of the node's tree in the heap before the client ran. -/
@@ -77,6 +104,29 @@ example : (run exHash exClient ((run exHash (Prog.root1 4) exHeap).2.1.extract 0
     = (run exHash exClient exHeap).1 :=
   (C05_copy_detached exHash (p := Prog.root1 4) (wfB_sound (by decide)) (memoValidB_sound (by decide))
     (.root _ _ (fun v => .ret v)) noPoke_exClient).1
+
+/-- The same in ONE address space: `q` runs after `p` in the very heap `p` left behind, which
+    contains `p`'s new cells and `p`'s memo fills.  A Go client never sees the numeric value of a
+    pointer; `reloc s n q` is `q` expressed in the address space where its own cells come `n` places
+    later (see `reloc`).  `q` obtains exactly the results it obtains when run alone on the original
+    heap: nothing `p` did — its new nodes, the memos it filled in shared nodes — is observable to
+    `q`.  With the roles of `p` and `q` exchanged this is the other direction. -/
+theorem C05_copy_detached_flat (h : HashFn) {p : Prog α} {q : Prog β} {hp : Heap} (hw : WF hp)
+    (hm : MemoValid h hp) (hnp : NoPoke p) (hnq : NoPoke q) :
+    (run h (reloc hp.size ((run h p hp).2.1.size - hp.size) q) (run h p hp).2.1).1 = (run h q hp).1 := by
+  have hf := run_frame h hnp hp hw
+  exact run_reloc h hnq hp _ (sim_after hw hf.2) hw hf.1 hm (run_memoValid h hnp hp hw hm)
+
+/-- non-vacuity: first a client that mutates and hashes (2 new cells, 3 memo fills in old cells),
+    then the same kind of client again, relocated by 2 -/
+example : (run exHash (reloc exHeap3.size ((run exHash exClient exHeap3).2.1.size - exHeap3.size) exClient)
+      (run exHash exClient exHeap3).2.1).1
+    = (run exHash exClient exHeap3).1 :=
+  C05_copy_detached_flat exHash (p := exClient) (q := exClient) (wfB_sound (by decide))
+    (memoValidB_sound (by decide)) noPoke_exClient noPoke_exClient
+
+example : (run exHash exClient exHeap3).2.1.size - exHeap3.size = 2
+    ∧ (run exHash exClient exHeap3).1.isSome := by decide
 
 /-- The `NoPoke` premise is necessary: a client that writes into an existing leaf (here the shared
     zero leaf) changes the tree of existing nodes, i.e. the frame property fails without the
